@@ -50,6 +50,8 @@ pub enum TMut {
     /// replace the id by one of this length (9..=16 interesting)
     IdLen(u8),
     Distance(u64),
+    /// an out-of-range (or any) distance inserted at a position of the list
+    DistanceAt(u64, u8),
     PortZero,
     PortWide(u32),
     IpLen(u8),
@@ -203,6 +205,13 @@ fn boundary(v: u64) -> bool {
 
 fn run_structured(m: &SMsg, rep: &mut CaseReport) {
     let cm = to_crate(m);
+    if let Message::Response(r) = &cm {
+        if let ResponseBody::Nodes { nodes, .. } = &r.body {
+            if nodes.iter().any(|e| e.size() == 300) {
+                rep.class("structured-nodes-with-a-record-of-exactly-300-bytes");
+            }
+        }
+    }
     let rmsg = to_ref(m);
     let enc = cm.clone().encode();
     let renc = rm::encode(&rmsg);
@@ -366,6 +375,14 @@ fn run_tree(base: &SMsg, muts: &[TMut], rep: &mut CaseReport) {
                 if t == 3 && items.len() > 1 {
                     if let Item::List(ds) = &mut items[1] {
                         ds.push(rlp::encode_uint(*d));
+                    }
+                }
+            }
+            TMut::DistanceAt(d, pos) => {
+                if t == 3 && items.len() > 1 {
+                    if let Item::List(ds) = &mut items[1] {
+                        let at = (*pos as usize * (ds.len() + 1)) >> 8;
+                        ds.insert(at, rlp::encode_uint(*d));
                     }
                 }
             }
@@ -566,7 +583,8 @@ fn tmut_strategy() -> BoxedStrategy<TMut> {
         3 => any::<u8>().prop_map(TMut::RemoveItem),
         2 => any::<u8>().prop_map(TMut::WrapItem),
         3 => prop_oneof![9u8..=16, 0u8..20].prop_map(TMut::IdLen),
-        3 => prop_oneof![Just(257u64), 257u64..1000, any::<u64>()].prop_map(TMut::Distance),
+        2 => prop_oneof![Just(257u64), 257u64..1000, any::<u64>()].prop_map(TMut::Distance),
+        3 => (prop_oneof![Just(257u64), 257u64..1000, any::<u64>()], any::<u8>()).prop_map(|(d, p)| TMut::DistanceAt(d, p)),
         2 => Just(TMut::PortZero),
         1 => prop_oneof![Just(65536u32), any::<u32>()].prop_map(TMut::PortWide),
         3 => prop_oneof![Just(0u8), Just(1), Just(3), Just(5), Just(15), Just(17), 0u8..20].prop_map(TMut::IpLen),
